@@ -188,6 +188,7 @@ var forestShapes = []shapeDef{
 	{name: "same-file-two-spellings", ext: true},
 	{name: "same-path-tail-under-two-ancestors", ext: true, schemaOnly: true}, // the name resolver is the same for every kind
 	{name: "fragment-of-whole-file-component", ext: true, nested: true},
+	{name: "fragment-of-whole-file-component-from-an-external-component", ext: true, nested: true},
 	{name: "escaped-key:tilde-one", schemaOnly: true},
 	{name: "escaped-key:slash", schemaOnly: true},
 	{name: "escaped-key:tilde", schemaOnly: true},
@@ -232,7 +233,7 @@ func shapesFor(kind string) []shapeDef {
 		if s.name == "non-components-fragment" && kind != "schema" && kind != "response" && kind != "parameter" {
 			continue
 		}
-		if s.name == "fragment-of-whole-file-component" && nestedSchemaPointer[kind] == "" {
+		if strings.HasPrefix(s.name, "fragment-of-whole-file-component") && nestedSchemaPointer[kind] == "" {
 			continue
 		}
 		out = append(out, s)
@@ -424,6 +425,15 @@ func BuildForest(kind, shape string, pos Position, layout, spelling, entry strin
 		addComponent(root, sec, "Zed", map[string]any{"$ref": relRef(rootLoc, f1Loc, "plain")})
 		addComponent(root, "schemas", "Aaa", map[string]any{"type": "object", "description": "AAA", "properties": map[string]any{
 			"inner": map[string]any{"$ref": relRef(rootLoc, f1Loc, "plain") + "#" + nestedSchemaPointer[kind]}}})
+		planted = r1
+	case "fragment-of-whole-file-component-from-an-external-component":
+		// as above, but the reference to the fragment sits in a second file, which the root takes in as a whole-file component
+		// that sorts before the whole-file component of the first file
+		files[f1Loc] = targetObject(kind, "")
+		files[f2Loc] = map[string]any{"type": "object", "description": "ENVELOPE-IN-F2", "properties": map[string]any{
+			"inner": map[string]any{"$ref": r21 + "#" + nestedSchemaPointer[kind]}}}
+		addComponent(root, sec, "Zed", map[string]any{"$ref": relRef(rootLoc, f1Loc, "plain")})
+		addComponent(root, "schemas", "Aaa", map[string]any{"$ref": relRef(rootLoc, f2Loc, "plain")})
 		planted = r1
 	case "escaped-key:tilde-one", "escaped-key:slash", "escaped-key:tilde", "escaped-key:tilde-zero":
 		// property names that need JSON-pointer escaping (RFC 6901: "~1" is "/", "~0" is "~", decoded in that order),
